@@ -12,11 +12,10 @@ OK = os.path.join(HERE, "spec", "lemmas.ok.json")
 
 # schemas of pyvc/axioms.py that have NO Lean counterpart yet (trusted axioms)
 TRUSTED_SCHEMAS = [
-    "root of a product / quotient for odd n with arguments of any non-zero sign",
+    "root of a quotient for odd n with arguments of any non-zero sign (the product case is ax_root_mul_any)",
     "parity of integer products ((a*b) % 2 == 0 <=> a % 2 == 0 or b % 2 == 0) and a*b >= a, b for a, b >= 1",
     "cardinality facts of finite name sets (card >= 0, card = 0 <=> empty, card = 1 => singleton)",
     "the identification of Python's float operations (**, math.sqrt/cbrt/log/sin/cos) with the real functions",
-    "adequacy of the dV row for Multiply of arbitrary arity (the binary rule d_mul and the n-ary sum rule d_bigsum are proved; the n-ary product row is their iteration)",
     "the meaning of the big-operator symbols of G-mode (bigsum / bigprod / bighash are Finset.range sums / products / any function of the element sequence); their unfolding, extensionality and zero-factor schemas are proved (ax_bigsum_succ, ax_bigsum_ext, ax_bigprod_has_zero, ...)",
     "dV row of the odd root at negative arguments (reduces to d_root_pos on -f by ax_root_neg)",
 ]
